@@ -236,6 +236,18 @@ def run(item):
                     w_tau = lag_weights(nodes, tb.tau[j] * r)
                     P('through-helper', 'P(tau_%d h)[step %d,%d]' % (j, i, s), {dd: sum((ys[dd][m] * cst[dd](w_tau[m]) for m in range(1, d + 1)), ys[dd][0] * cst[dd](w_tau[0])) for dd in doms},
                       {dd: trs[dd].Xr[i * cfg.degree + j][s] for dd in doms})
+    # twin (vacuity): the end-value identity must tell apart a propagation over twice the step
+    twins_ok = twins_bad = 0
+    if cfg.method != 'DC':
+        tr = trs[0]
+        h = (tr.tc[1] - tr.tc[0]) / M
+        xn2, _ = step(tr, 0, tr.Xi[0], tr.ti[0], 2 * h, cfg.intg)
+        ys0 = [xr(0, j, 0) for j in range(r)]
+        pend = sum(ys0[j] * float(w_end[j]) for j in range(d + 1))
+        if not close(pend, xn2[0]):
+            twins_ok += 1
+        else:
+            twins_bad += 1
     # 6. sampler == the same polynomial on the explored steps
     for i, (iv, idr) in plan['sampler'].items():
         for j in range(d + 1):
@@ -243,7 +255,7 @@ def run(item):
                 P('sampler-value', 'sampler(t_%d+%d*delta)[%d]' % (i, j, s), {dd: (fq[iv][j * nx + s] if dd == 'z' else ex[dd][iv][j * nx + s]) for dd in doms}, {dd: xr(dd, i * r + j, s) for dd in doms})
         for s in range(nx):
             P('sampler-degree', 'd^%d sampler/dt^%d [step %d,%d]' % (d + 1, d + 1, i, s), {dd: (fq[idr][s] if dd == 'z' else ex[dd][idr][s]) for dd in doms}, {dd: cst[dd](0) for dd in doms})
-    res = result(inst, ch, {'violations': viol, 'shape': '%s|%s' % (cfg.tag(), spec.t0[0] + '/' + spec.T[0]),
+    res = result(inst, ch, {'violations': viol, 'twins_ok': twins_ok, 'twins_bad': twins_bad, 'shape': '%s|%s' % (cfg.tag(), spec.t0[0] + '/' + spec.T[0]),
                             'sample': {'cfg': cfg.tag(), 'degree': d, 'refine': r, 'steps_with_sampler': steps, 'proved': len(ch.proved)}})
     if viol:
         res['status'] = 'violation'
